@@ -189,14 +189,27 @@ def _run(case):
         c1, c2 = scenes.build(case["c1"]), scenes.build(case["c2"])
         fn = case["fn"]
         if fn == "epa":
-            dist, _, _, simplex = gjk.gjk(c1, c2)
+            # number of valid simplex rows gjk ends with (rows beyond it are uninitialised memory: np.empty)
+            import distance3d.gjk._gjk_jolt as J
+            last, orig_loop = {}, J._distance_loop
+
+            def _loop(*a):
+                r = orig_loop(*a)
+                last["n"] = r[1]
+                return r
+            J._distance_loop = _loop
+            try:
+                dist, _, _, simplex = gjk.gjk(c1, c2)
+            finally:
+                J._distance_loop = orig_loop
             if dist > 0.0 or simplex is None:
                 return {"skipped": "no overlap"}
+            n_valid = int(last.get("n") or 4)
             try:
                 mtv, faces, success = epa.epa(simplex, c1, c2)
             except AssertionError:
-                return {"epa_capacity_assert": True}
-            return _ser({"mtv_len": float(np.linalg.norm(mtv)), "success": success})
+                return {"epa_capacity_assert": True, "n_valid": n_valid}
+            return _ser({"mtv_len": float(np.linalg.norm(mtv)), "success": success, "n_valid": n_valid})
         if fn.startswith("mpr"):
             r = getattr(mpr, fn)(c1, c2)
         else:
@@ -466,10 +479,18 @@ def differential(ctx, cases, tag):
 
 
 F_HYDRO_DROP = "F-c20-hydro-vertex-drop"
+F_EPA_ROWS = "F-c20-epa-uninitialised-simplex-rows"
 
 
 def classify(case, a, b, msg):
     """attach a known-finding id only to the exact class it describes"""
+    if case["kind"] == "pair" and case.get("fn") == "epa" and a.get("ok") and b.get("ok"):
+        oa, ob = a["out"], b["out"]
+        # gjk handed over fewer than 4 valid simplex rows: the remaining rows are np.empty memory, epa builds its first
+        # faces from them, and what it returns (a too long vector with success=True, NaN, the capacity assertion) depends
+        # on what that memory held in the respective process
+        if isinstance(oa, dict) and isinstance(ob, dict) and min(oa.get("n_valid", 4), ob.get("n_valid", 4)) < 4:
+            return F_EPA_ROWS
     if case["kind"] == "hydro" and a.get("ok") and b.get("ok"):
         oa, ob = a["out"], b["out"]
         # same intersecting pairs, but some contact polygon has another number of vertices in the two engines (a vertex
